@@ -367,9 +367,17 @@ class Contracts:
 
         def k2b(self, *conds):
             K.evals["K2b"] += 1
-            if "children" in getattr(self, "__dict__", {}):
-                K.fail("K2b", f"__init__ re-run on live {type(self).__name__}")
-            return orig_bi(self, *conds)
+            before = getattr(self, "__dict__", {}).get("children", None)
+            out = orig_bi(self, *conds)
+            # python runs __init__ again on an operand that __new__ returned: that is only
+            # harmless if it leaves the live combination's children alone
+            if before is not None:
+                after = self.__dict__.get("children")
+                if after is None or len(after) != len(before) or any(
+                        x is not y for x, y in zip(before, after)):
+                    K.fail("K2b", f"__init__ re-initialised a live {type(self).__name__}: "
+                                  f"children rebound")
+            return out
 
         C.ConditionBinaryOp.__init__ = k2b
 
